@@ -4607,6 +4607,8 @@ func (d *Document) parseBlipFill(decoder *xml.Decoder, startElement xml.StartEle
 				for _, attr := range t.Attr {
 					if attr.Name.Local == "embed" {
 						blip.Embed = attr.Value
+					} else if attr.Name.Local == "link" {
+						blip.Link = attr.Value
 					}
 				}
 				blipFill.Blip = blip
